@@ -556,6 +556,8 @@ func (client *client) connectWithTimeOut() (ok bool) {
 		select {
 		case p := <-client.in:
 			if p == nil {
+				// the connection ended before the handshake completed
+				err = io.EOF
 				return
 			}
 			code := codes.Success
